@@ -30,14 +30,18 @@ func caseGen() *rapid.Generator[Case] {
 		c := Case{Creator: rapid.SampledFrom([]string{"core", "core", "csv", "texttable", "markdown"}).Draw(t, "creator")}
 		n := rapid.IntRange(2, max).Draw(t, "n")
 		for i := 0; i < n; i++ {
-			k := rapid.SampledFrom([]string{"op", "op", "op", "reg", "reg", "reg", "render"}).Draw(t, "step")
+			k := rapid.SampledFrom([]string{"op", "op", "op", "op", "reg", "reg", "reg", "reg", "render", "render", "seedcell"}).Draw(t, "step")
 			st := Step{K: k}
 			switch k {
 			case "op":
 				op := gen.Op{K: rapid.SampledFrom([]string{"hdr", "rowitems", "rowitems", "rowitems", "sep", "appendnew", "newrow", "newrowsized", "rowadd", "rowadd", "rowadd", "addrow", "addrow", "zerorow"}).Draw(t, "kind")}
 				switch op.K {
 				case "hdr", "rowitems":
-					for j, k := 0, rapid.IntRange(0, 3).Draw(t, "cells"); j < k; j++ {
+					ncell := rapid.IntRange(0, 3).Draw(t, "cells")
+					if rapid.IntRange(0, 14).Draw(t, "wide") == 0 {
+						ncell = rapid.IntRange(9, 22).Draw(t, "widecells") // cross the 10/20-entry column capacities
+					}
+					for j, k := 0, ncell; j < k; j++ {
 						op.Items = append(op.Items, item.Draw(t, "item"))
 					}
 				case "rowadd":
@@ -49,10 +53,14 @@ func caseGen() *rapid.Generator[Case] {
 					op.Ref = rapid.IntRange(0, 3).Draw(t, "ref")
 				}
 				st.Op = &op
+			case "seedcell":
+				st.Ref = rapid.IntRange(0, 7).Draw(t, "ref")
+				st.Col = rapid.IntRange(0, 7).Draw(t, "ref2")
+				st.Target = rapid.IntRange(0, 2).Draw(t, "followup")
 			case "reg":
 				st.Owner = rapid.SampledFrom(ownerKinds).Draw(t, "owner")
 				st.Ref = rapid.IntRange(0, 7).Draw(t, "ref")
-				st.Col = rapid.IntRange(0, 4).Draw(t, "col")
+				st.Col = rapid.SampledFrom([]int{0, 1, 2, 3, 4, -1, -1}).Draw(t, "col") // -1: the highest column / last cell
 				st.When = rapid.IntRange(0, 3).Draw(t, "when")
 				st.Target = rapid.IntRange(0, 2).Draw(t, "target")
 			case "render":
